@@ -86,8 +86,30 @@ Definition part_write (c : cfg) (segstart rate : Z) (p : pst) (w : wsmp) : optio
                          else p.(p_base) ++ [(w.(w_trk), muldiv_w (w.(w_dts) - segstart) rate nanos)];
                p_smps := p.(p_smps) ++ [w] |}.
 
-(* ---- formatFMP4Segment.write: (segment, log, accepted?) ---- *)
+(* ---- formatFMP4Segment.write: (segment, log, accepted?) ----
+   The repaired code (fix b7e594b in /repo): endDTS is raised after formatFMP4Part.write has accepted the sample. *)
 Definition seg_write (c : cfg) (rate : Z) (g : sst) (w : wsmp) (lg : list sop) : sst * list sop * bool :=
+  let e := g.(g_end) in
+  let '(g1, lg1) :=
+    match g.(g_cur) with
+    | None => (set_part g e (g.(g_nextpart) + 1) (Some (new_part g.(g_nextpart) w.(w_dts))), lg)
+    | Some p =>
+        if p.(p_end) - p.(p_start) >=? c.(c_part_dur) then
+          let '(g', lg') := close_part (set_part g e g.(g_nextpart) (Some p)) lg in
+          (set_part g' e (g.(g_nextpart) + 1) (Some (new_part g.(g_nextpart) w.(w_dts))), lg')
+        else (set_part g e g.(g_nextpart) (Some p), lg)
+    end in
+  match g1.(g_cur) with
+  | None => (g1, lg1, false)
+  | Some p =>
+      match part_write c g1.(g_start) rate p w with
+      | None => (g1, lg1, false)
+      | Some p' => (set_part g1 (Z.max g1.(g_end) w.(w_end)) g1.(g_nextpart) (Some p'), lg1, true)
+      end
+  end.
+(* The PINNED code (before b7e594b): endDTS was raised first, so a sample refused by formatFMP4Part.write ("reached
+   maximum part size") was counted in the duration of the segment that the recorder then closed. *)
+Definition seg_write_pinned (c : cfg) (rate : Z) (g : sst) (w : wsmp) (lg : list sop) : sst * list sop * bool :=
   let e := Z.max g.(g_end) w.(w_end) in
   let '(g1, lg1) :=
     match g.(g_cur) with
@@ -142,8 +164,9 @@ Definition o_ok : Z := 0.
 Definition o_discard : Z := 1.
 Definition o_err : Z := 2.
 
-(* ---- formatFMP4Track.write ---- *)
-Definition track_write (c : cfg) (t : nat) (s : smp) (x : st) : st * Z :=
+(* ---- formatFMP4Track.write (sw = formatFMP4Segment.write: the repaired or the pinned one) ---- *)
+Definition segw := cfg -> Z -> sst -> wsmp -> list sop -> sst * list sop * bool.
+Definition track_write_gen (sw : segw) (c : cfg) (t : nat) (s : smp) (x : st) : st * Z :=
   match nth_error c.(c_tracks) t, nth_error x.(x_trk) t with
   | Some tc, Some tr =>
       let hv := x.(x_hasvideo) || tc.(tc_video) in
@@ -173,7 +196,7 @@ Definition track_write (c : cfg) (t : nat) (s : smp) (x : st) : st * Z :=
               let tr3 := set_skip tr2 false in
               let w := {| w_trk := t; w_video := tc.(tc_video); w_smp := prev; w_dur := dur; w_dts := dts;
                           w_end := dts + ts2dur dur tc.(tc_rate) |} in
-              let '(g1, lg1, ok) := seg_write c tc.(tc_rate) g0 w x.(x_log) in
+              let '(g1, lg1, ok) := sw c tc.(tc_rate) g0 w x.(x_log) in
               let trk3 := upd x.(x_trk) t tr3 in
               if negb ok then (mk_st trk3 hv (Some g1) ns0 lg1 x.(x_acc) x.(x_outs), o_err)
               else
@@ -186,6 +209,8 @@ Definition track_write (c : cfg) (t : nat) (s : smp) (x : st) : st * Z :=
       end
   | _, _ => (x, o_ok)
   end.
+
+Definition track_write : cfg -> nat -> smp -> st -> st * Z := track_write_gen seg_write.
 
 Definition add_out (x : st) (o : Z) : st :=
   mk_st x.(x_trk) x.(x_hasvideo) x.(x_seg) x.(x_nextseg) x.(x_log) x.(x_acc) (x.(x_outs) ++ [o]).
@@ -230,6 +255,16 @@ Definition gate (c : cfg) (evs : list event) : list event := gate_from c [] evs.
 
 (* the recorder: gate, then the segmenter *)
 Definition run (c : cfg) (evs : list event) : st := run_raw c (gate c evs).
+
+(* the pinned recorder (before fix b7e594b): the same with seg_write_pinned *)
+Fixpoint run_from_pinned (c : cfg) (x : st) (evs : list event) : st :=
+  match evs with
+  | [] => x
+  | (t, s) :: r =>
+      let '(x', o) := track_write_gen seg_write_pinned c t s x in
+      if o =? o_err then add_out x' o else run_from_pinned c (add_out x' o) r
+  end.
+Definition run_pinned (c : cfg) (evs : list event) : st := finish (run_from_pinned c (init_st c) (gate c evs)).
 
 (* ---- reading the log ---- *)
 Definition parts_of (l : list sop) : list opart :=
